@@ -39,6 +39,7 @@ int main(void)
 	printf("st_ctrl %d\n", (int) RX_ST_CTRL);
 	printf("st_data %d\n", (int) RX_ST_DATA);
 	printf("st_escape %d\n", (int) RX_ST_ESCAPE);
+	fflush(stdout);
 #ifdef HOST_BUILD
 	{
 		/* observe the escape bit of the transmitter and of the receiver */
@@ -97,20 +98,27 @@ def _dump(run, host):
     rc, o = vf.sh(cmd, timeout=600)
     if rc != 0:
         raise vf.HarnessError("sercomm dumper (%s) does not compile: %s" % (tag, o[-2000:]))
-    rc, o = vf.sh([exe], check=True)
+    rc, o = vf.sh([exe])
     vals = {}
     for ln in o.strip().split("\n"):
-        k, v = ln.split()
-        vals[k] = int(v)
+        t = ln.split()
+        if len(t) == 2 and t[1].lstrip("-").isdigit():
+            vals[t[0]] = int(t[1])
+    vals["_rc"] = rc          # the host variant runs the code under test: it may crash on a broken tree
     return vals
 
 
 def generate(run):
     h = _dump(run, True)
     t = _dump(run, False)
+    run.consts = {"host": h, "target": t}          # what could be read, even if the rest fails
+    for k in ("rx_msg_size", "hdlc_flag", "st_escape"):
+        if k not in h or k not in t:
+            raise vf.HarnessError("sercomm dumper printed no %s" % k)
     for k in ("tx_esc_xor", "rx_esc_xor", "alloc_slack", "alloc_headroom"):
-        if h[k] < 0:
-            raise vf.HarnessError("sercomm dumper: could not observe %s" % k)
+        if h.get(k, -1) < 0:
+            raise vf.HarnessError("sercomm dumper: could not observe %s (exit status %s of the dumper running "
+                                  "sercomm_drv_pull / sercomm_drv_rx_char)" % (k, h["_rc"]))
     L = ["-- GENERATED from /repo by /verif/gen/sercomm.py -- do not edit",
          "namespace OsmoVerif.Gen.Sercomm",
          "/-- `SERCOMM_RX_MSG_SIZE` of sercomm.c compiled with -DHOST_BUILD (osmocon, osmoload) -/",
